@@ -12,12 +12,12 @@ CLAIMED = {
     'C02': dict(
         cat='proof', ref='DESIGN 4/C02',
         text='Every function of stream::Parser (from_parser, parse, parse_payload, parse_head, consume_stream, compress, discard_stream, consume_output, set_stream, cmp_input_streams) carries a functional contract over the abstract view (parsed / raw / output queue) and the geometry invariant wf; Verus discharges every clause for all buffer contents, lengths, payload/padding counters and destination sizes. parse_payload: exactly min(payload, available[, room]) bytes move to the stream buffer or to the front of dest, in order, once; parse_head: header dispatch equals the specification-level head_action (stream / skip / hold-back / abort / cant-mpx / values); parse: one call equals the specification run s_run over the unread bytes (state, bytes consumed, bytes appended to the stream buffer, replies, end-of-stream flag, error), proved with a loop invariant relating the run from the initial state to the steps taken so far.',
-        note='Proved per call (parse = s_run on the bytes available; every other method against its whole-view contract). Lemma layer (unit streamlemmas, machine-checked, pure): for ANY sequence of well-formed data records followed by the terminating record, s_run delivers exactly the concatenation of the active stream bodies, consumes every record entirely, reports end-of-stream exactly at the terminator and leaves it unconsumed (lemma_records, lemma_stream_until_end). Not a checked lemma: the same statement across several parse calls with arbitrary read cuts / interleaved consume_stream-compress schedules (it is the composition of the per-call contracts). For dest = Some(buf) the run-level clause covers counts/state/replies and the byte content written to buf is proved at step level (parse_payload, nested-prophecy clause). Trusted: copy_within = memmove, <&mut [u8] as Write>::write (both cross-checked bounded by Kani), RecordHeader::from_bytes contract (proved complete by Kani), 64-bit usize, allocations <= isize::MAX, rewrite rules R1-R13.',
+        note='Proved per call (parse = s_run on the bytes available; every other method against its whole-view contract). Lemma layer (unit streamlemmas, machine-checked, pure): for ANY sequence of well-formed data records followed by the terminating record, s_run delivers exactly the concatenation of the active stream bodies, consumes every record entirely, reports end-of-stream exactly at the terminator and leaves it unconsumed (lemma_records, lemma_stream_until_end). Read-chunking invariance is a checked lemma as well (lemma_run_split, lemma_any_reads): for every state, every cut x ++ y of the unread bytes (through headers, payloads, padding or GetValues pairs) and every room in the caller buffer, the run over x followed by the run over (unread rest of x) ++ y equals the run over x ++ y, hence any sequence of reads equals one read of the concatenation. Composition only: consume_stream / compress / consume_output between calls keep the raw view (their contracts say so). For dest = Some(buf) the run-level clause covers counts/state/replies and the byte content written to buf is proved at step level (parse_payload, nested-prophecy clause). Trusted: copy_within = memmove, <&mut [u8] as Write>::write (both cross-checked bounded by Kani), RecordHeader::from_bytes contract (proved complete by Kani), 64-bit usize, allocations <= isize::MAX, rewrite rules R1-R13.',
         tech=TECH_V),
     'C03': dict(
         cat='proof', ref='DESIGN 4/C03',
         text='Panic-freedom and bookkeeping integrity of both parsers as proof obligations: every expect/unwrap/index/slice/split/arithmetic/assert!/debug_assert! site in the extracted functions is shown unreachable under the documented preconditions only, for arbitrary bytes; wf (the debug_assert_invars! geometry) is preserved by every method; loops carry decreases measures (termination); fatal header errors leave the parser on the offending header (sticky).',
-        note='Chunking invariance is carried by the per-call functional contracts (state and outputs are functions of the abstract state and the bytes consumed; the unread tail is returned unchanged); the inductive lemma over all chunkings is not machine-checked. usize fixed to 64 bit.',
+        note='Chunking invariance is carried by the per-call functional contracts (state and outputs are functions of the abstract state and the bytes consumed; the unread tail is returned unchanged); for stream::Parser the inductive statement over all read cuts is machine-checked on the run specification (unit streamlemmas: lemma_run_split / lemma_any_reads, GetValues bodies via lemma_values_split); for the request parser the segmentation lemmas of unit reqlemmas cover the Params payload, the whole-history induction with interleaved records is composition. usize fixed to 64 bit.',
         tech=TECH_V),
     'C04': dict(
         cat='proof', ref='DESIGN 4/C04',
@@ -80,8 +80,8 @@ CLAIMED.update({
 CLAIMED.update({
     'C20': dict(
         cat='proof', ref='DESIGN 4/C20',
-        text='simple_redirect and write_headers (real text, instantiated at the slice writer W := &mut [u8] the crate recommends for async use, and I := &[(&[u8], &[u8])]) verified by Verus: with enough room the destination receives exactly `Location: <loc>\\n\\n`, resp. the status line, one `name: value` line per header in the given order and a blank line (loop invariant over the header list, nested-prophecy frame on the destination), the returned count is exactly the number of bytes written, and with too little room the result is an error, never a success report.',
-        note='Instantiation (R10) instead of the generic impl Write / IntoIterator; io::Error abstracted to a unit error; the status line prefix (`Status: ` + StatusCode::as_str() + space) and canonical_reason() are http-crate externals with uninterpreted digits/reason (so `<code>` being the decimal code and the reason phrases are assumed, not proved); byte-string literals enter through literal wrappers whose @@sub anchors contain the literal text (an edited literal is a lost anchor = undecided); <&mut [u8] as Write>::write_all contract trusted (all-or-error). Other writers (Vec, BufWriter) are covered only through the Write contract.',
+        text='simple_redirect and write_headers, bodies verified near-verbatim by Verus (signature instantiated at the slice writer W := &mut [u8] the crate recommends for async use, and I := &[(&[u8], &[u8])]; w.write_all / w.write -> the contracted slice-writer functions; byte-string literals -> generated constant functions with their bytes as contract; as_bytes, map_or, eq_ignore_ascii_case, copy_from_slice and the StatusCode methods stay in place): with enough room the destination receives exactly `Location: <loc>\\n\\n`, resp. the status line, one `name: value` line per header in the given order and a blank line (loop invariant over the header list, nested-prophecy frame on the destination), the returned count is exactly the number of bytes written, and with too little room the result is an error, never a success report.',
+        note='Instantiation (R10) instead of the generic impl Write / IntoIterator; io::Error abstracted to a unit error; http::StatusCode is a stand-in type: as_str() = the three decimal digits of a code 100..=999 and canonical_reason() = some registered phrase or none are the http crate\'s contracts, assumed; byte-string literals enter through generated constant functions whose contract lists the decoded bytes (R15, decoder trusted); NOT covered: http_headers (two-line adapter over http::Response: iterator adapters over the http crate\'s HeaderMap are outside Verus and CBMC does not finish one concrete response in 15 min) - a seeded change there (keys() + index instead of iter(): repeated header names lose values) is not detected; <&mut [u8] as Write>::write_all contract trusted (all-or-error). Other writers (Vec, BufWriter) are covered only through the Write contract.',
         tech=TECH_V),
 })
 
